@@ -16,7 +16,10 @@ def run(ctx):
     hs = os.path.join(H, 'h_length.c')
     U = 6
     RB = 16 if thorough else 12
-    qs = [Query('length', L, hs, ['U=%d' % U, 'RB=%d' % RB], unwind=U + 2, timeout=3000 if thorough else 400, desc='range::length() vs the sequential loop, all start/end/step in [-2^%d,2^%d], step != 0, trip count <= %d' % (RB, RB, U), backends=None, backend='cadical')]
+    qs = []
+    for nm, sg in (('length-positive-step', 1), ('length-negative-step', -1)):
+        qs.append(Query(nm, L, hs, ['U=%d' % U, 'RB=%d' % RB, 'STEPSIGN=%d' % sg], unwind=U + 2, timeout=3000 if thorough else 400, backend='cadical',
+                        desc='range::length() vs the sequential loop, all start/end in [-2^%d,2^%d], step %s 0, trip count <= %d' % (RB, RB, '>' if sg > 0 else '<', U)))
     C.selftest(ctx, L, hs, ['U=%d' % U], [dict(start=0, end=5, step=1), dict(start=5, end=0, step=-2), dict(start=3, end=3, step=1), dict(start=0, end=7, step=3), dict(start=2, end=-5, step=4)], 'len')
     C.run_queries(ctx, qs)
     ctx.bounds = {'values': 'start, end, step: all values in [-2^%d, 2^%d]' % (RB, RB) + ', step != 0 (both signs, empty and wrong-direction ranges included)',
